@@ -203,3 +203,105 @@ example :
   decide
 
 end PdbModel
+
+namespace PdbModel
+
+/-! ### residue level: the range test per conformer + bisection = the linear scan -/
+
+theorem pairwise_head_le (l : List Atom) (h : l.Pairwise (fun a b => a.serial < b.serial)) (f : Atom)
+    (hf : l.head? = some f) : ∀ a ∈ l, f.serial ≤ a.serial := by
+  cases l with
+  | nil => cases hf
+  | cons x xs =>
+    simp only [List.head?_cons, Option.some.injEq] at hf
+    subst hf
+    intro a ha
+    simp only [List.mem_cons] at ha
+    rcases ha with rfl | ha
+    · exact Nat.le_refl _
+    · exact Nat.le_of_lt ((List.pairwise_cons.mp h).1 a ha)
+
+theorem pairwise_le_last (l : List Atom) (h : l.Pairwise (fun a b => a.serial < b.serial)) (b : Atom)
+    (hb : l.getLast? = some b) : ∀ a ∈ l, a.serial ≤ b.serial := by
+  induction l with
+  | nil => cases hb
+  | cons x xs ih =>
+    intro a ha
+    cases xs with
+    | nil =>
+      simp only [List.getLast?_singleton, Option.some.injEq] at hb
+      subst hb
+      simp only [List.mem_singleton] at ha
+      subst ha; exact Nat.le_refl _
+    | cons y ys =>
+      have hb' : (y :: ys).getLast? = some b := by simpa [List.getLast?_cons_cons] using hb
+      have hp := List.pairwise_cons.mp h
+      have hin := ih hp.2 hb'
+      simp only [List.mem_cons] at ha
+      rcases ha with rfl | ha
+      · have hy := hp.1 y (by simp)
+        have := hin y (by simp)
+        omega
+      · exact hin a (by simpa using ha)
+
+/-- one conformer: the guarded bisection is the scan of that conformer's atoms -/
+theorem conformer_probe_eq_scan (c : Conformer) (serial : Nat) (alt : Option String)
+    (h : c.atoms.Pairwise (fun a b => a.serial < b.serial)) :
+    c.probeFind serial alt = c.withH.find? (fun h => h.atom.serial = serial ∧ h.conformer.alt = alt) := by
+  unfold Conformer.probeFind
+  unfold Conformer.withH
+  rw [List.find?_map]
+  by_cases halt : c.alt = alt
+  · simp only [halt, if_true]
+    have hscan : (List.find? ((fun (h : HAC) => decide (h.atom.serial = serial ∧ h.conformer.alt = alt)) ∘ fun a => (⟨a, c⟩ : HAC)) c.atoms) =
+        c.atoms.find? (fun a => a.serial == serial) := by
+      congr 1; funext a
+      apply Bool.eq_iff_iff.mpr; simp [halt]
+    rw [hscan]
+    cases hh : c.atoms.head? with
+    | none =>
+      have : c.atoms = [] := by cases hc : c.atoms with | nil => rfl | cons x xs => rw [hc] at hh; cases hh
+      simp [this]
+    | some f =>
+      cases hl : c.atoms.getLast? with
+      | none =>
+        have : c.atoms = [] := by simpa using hl
+        rw [this] at hh; cases hh
+      | some b =>
+        simp only
+        by_cases hr : f.serial ≤ serial ∧ serial ≤ b.serial
+        · rw [if_pos hr, C11_conformer_binfind c serial h]
+        · rw [if_neg hr]
+          have hnone : c.atoms.find? (fun a => a.serial == serial) = none := by
+            rw [List.find?_eq_none]
+            intro a ha
+            have h1 := pairwise_head_le c.atoms h f hh a ha
+            have h2 := pairwise_le_last c.atoms h b hl a ha
+            simp only [beq_iff_eq]
+            intro he; apply hr; omega
+          rw [hnone]; rfl
+  · simp only [halt, if_false]
+    symm
+    rw [Option.map_eq_none_iff, List.find?_eq_none]
+    intro a _
+    simp [halt]
+
+/-- **residue level**: with ascending serial numbers inside every conformer, `Residue::binary_find_atom`
+returns exactly what the linear scan over the residue's (atom, conformer) pairs returns -/
+theorem C11_residue_binfind (r : Residue) (serial : Nat) (alt : Option String)
+    (h : ∀ c ∈ r.conformers, c.atoms.Pairwise (fun a b => a.serial < b.serial)) :
+    r.binaryFindAtom serial alt =
+      r.withHAC.find? (fun h => h.atom.serial = serial ∧ h.conformer.alt = alt) := by
+  unfold Residue.binaryFindAtom Residue.withHAC
+  generalize r.conformers = cs at h
+  induction cs with
+  | nil => rfl
+  | cons c cs ih =>
+    have hc := h c (by simp)
+    have ih' := ih (fun x hx => h x (by simp [hx]))
+    rw [List.findSome?_cons, List.flatMap_cons, List.find?_append, conformer_probe_eq_scan c serial alt hc]
+    cases c.withH.find? (fun h => h.atom.serial = serial ∧ h.conformer.alt = alt) with
+    | some x => rfl
+    | none => simpa using ih'
+
+end PdbModel
